@@ -65,6 +65,9 @@ func Render(rs *RespSpec, now time.Time, serial string) *sim.Reply {
 	if rep.Status == 304 || rep.Status == 204 || rep.Status < 200 {
 		rep.NoBody = true
 	}
+	if rep.NoBody {
+		rep.FailBody = false
+	}
 	h := rep.Header
 	date := now
 	switch {
